@@ -29,7 +29,7 @@ LEVEL_TEXT = ('Theorems (Props/C08.v): read(write(f)) presents exactly the conte
               '(ncf2one3d output == o_enc, byte-identical re-write). '
               'TEMPERATURE and HEIGHT/PRESSURE (Model/TempHp.v, Proofs/TempHpProofs.v; layered record files over the One3d codec; both Memmap readers hand-modelled incl. the for-loop fall-through, the lazy reshapes and the marker check): C08_temperature_read_write, C08_temperature_rewrite_idempotent, C08_heightpres_read_write, '
               'C08_heightpres_rewrite_idempotent; tie H: constructors TD8 / HD8 (writer output == spec encoding, byte-identical re-write). '
-              'WIND (Model/Wind.v, Proofs/WindProofs.v; Memmap reader hand-modelled incl. the RecordFile walk of its __init__, with a three-valued result read / raise / never returns): C08_wind_read_write_partial, C08_wind_rewrite_idempotent; tie H: constructor WD8.')
+              'WIND (Model/Wind.v, Proofs/WindProofs.v; Memmap reader hand-modelled incl. the RecordFile walk of its __init__, with a three-valued result read / raise / never returns): C08_wind_read_write, C08_wind_rewrite_idempotent; tie H: constructor WD8.')
 LEVEL_NOTE = ('Trusted: Coq kernel+vm_compute, py2coq, harness. Met formats and landuse are held by correspondence and generic record '
               'framing theorems only. Known findings: single-step met files; 1x1 wind grids; land-use sniffing.')
 TECHNIQUE = 'Coq proof (codec/reader round trip, date arithmetic over translated expressions) + differential correspondence'
@@ -58,7 +58,7 @@ def gen(rng, n, tier):
         c = M.gen_lb_thin(rng, tier)
         out.append(dict(kind='lbdy-thin', content=c, write=True, reread=True))
     # cloud/rain files, 3-field (< 4.3) and 5-field layouts
-    # wind files with many steps on tiny grids: the Memmap reader's step count runs ahead of the file (region 19)
+    # wind files with many steps on tiny grids (the Memmap reader's step count ran ahead of the file before d3c85b3)
     for i in range(max(2, n // 60)):
         c = M.gen_met(rng, fmt='wind', tier=tier, rollover=0.0, min_steps=3)
         c['nx'], c['ny'], c['nz'] = rng.choice([(2, 1, 1), (1, 2, 1), (3, 1, 1), (2, 1, 2)])
